@@ -63,6 +63,15 @@ def gen_case(ctx, stream, idx):
         if p["typ"] == "Optional[str]" and r.random() < 0.3:
             p["typ"] = r.choice(("Optional[dict]", "Optional[list]"))
             p.pop("default", None)
+    rr = __import__("random").Random(r.random())
+    if ir.get("returns") and (ir["returns"]["return_type"].get("doc") or "").strip() and rr.random() < 0.5:
+        # (a return entry without description has no sentence to announce a default in)
+        # what the interface returns by default: the return entry travels as text inside the schema's description, so its
+        # default is read back from prose - before the line that says its type
+        typ, val = rr.choice((("float", -0.5), ("float", -2.25), ("float", -1e-07), ("Optional[float]", -10.0), ("float", 0.5),
+                              ("float", 2.0), ("int", 3), ("int", -3), ("int", 0), ("bool", False), ("bool", True),
+                              ("str", "left"), ("Optional[int]", -1)))
+        ir["returns"]["return_type"].update({"typ": typ, "default": val})
     k_ = r.random()
     if k_ < 0.25:
         ir["doc"] = ""
